@@ -439,6 +439,7 @@ func cmdCheck(args []string) {
 		fmt.Printf("   incomplete x%d: %s\n", v, k)
 	}
 	rp.Cleanup()
+	os.RemoveAll(scratch + "-gen")
 	if violations > 0 {
 		// a confirmed violation is the verdict even if, because of it, some entry never reached its label
 		if engineErr != "" {
